@@ -85,6 +85,10 @@ type SigSpec struct {
 //	sigreq scripted member From sends a signature request (ID, P) to member To in session S
 //	msg    scripted member From sends the message (ID, P, Sigs) to member To in session S
 //	policy scripted member M answers honest clients' signature requests: coop | refuse | junk
+//	policy ... further modes: wrongid (valid signature, response carries another id) | empty | len64 |
+//	       otherhash (valid signature over another payload's digest) | late (cooperates after 20 ms)
+//	slow   honest member M's checkMessage takes K ms for requests of honest requesters (orders the responses an
+//	       honest client sees; not an observation)
 //	race   scripted member From fires, for every id in IDs and every honest member, K signature requests with K
 //	       DIFFERENT payloads concurrently (streams opened first, then released together); where every honest
 //	       member answered two payloads it completes the attack (payload P to one member, Q to another)
@@ -100,6 +104,9 @@ type Op struct {
 	Mode string    `json:"mode,omitempty"`
 	IDs  []int     `json:"ids,omitempty"`
 	K    int       `json:"k,omitempty"`
+	// Expect "ok": the generator knows this honest broadcast must succeed and be delivered on correct code
+	// (a failure is reported as a note, it is not part of C13).
+	Expect string `json:"expect,omitempty"`
 }
 
 // Script is a scenario and, after it ran, what was observed.
@@ -109,6 +116,10 @@ type Script struct {
 	N      int    `json:"n"`
 	Faulty []int  `json:"faulty"` // members played by the script; the outsider (index N) always is
 	Ops    []Op   `json:"ops"`
+	// NoMsg: scripted members whose host does not speak the msg protocol at all (an honest client's send to them
+	// fails). Such scripts run on hosts of their own (Fresh), because what a host supports is learnt once.
+	NoMsg []int `json:"nomsg,omitempty"`
+	Fresh bool  `json:"fresh,omitempty"`
 
 	Labels     []string       `json:"labels,omitempty"`
 	Scheme     string         `json:"scheme,omitempty"`
@@ -429,6 +440,14 @@ func newCluster(t *testing.T, n int, rng *rand.Rand, logs *logSink) *cluster {
 	return c
 }
 
+func (c *cluster) close() {
+	for s := 1; s <= 2; s++ {
+		for _, h := range c.hosts[s] {
+			_ = h.Close()
+		}
+	}
+}
+
 func (c *cluster) members() []peer.ID { return c.peers[:c.n] }
 
 func (c *cluster) index(p peer.ID) int {
@@ -493,6 +512,7 @@ type runner struct {
 	session [3][]byte
 	comps   [3][]*bcast.Component
 	policy  map[int]string
+	slow    map[int]int
 
 	mu     sync.Mutex
 	events []*event
@@ -626,7 +646,8 @@ func (r *runner) setup() {
 		for m := 0; m <= c.n; m++ {
 			s, m := s, m
 			if !sc.isFaulty(m) {
-				r.comps[s][m] = bcast.New(c.hosts[s][m], c.members(), c.secrets[m], r.session[s])
+				// every node has its own peer table (as in a deployment), so that a component that corrupts its table harms only itself
+				r.comps[s][m] = bcast.New(c.hosts[s][m], append([]peer.ID(nil), c.members()...), c.secrets[m], r.session[s])
 				continue
 			}
 			// Scripted member: answers honest clients, remembers what it sees.
@@ -647,10 +668,30 @@ func (r *runner) setup() {
 						return nil, false, errors.New("verif: scripted refusal")
 					case "junk":
 						return &pb.BCastSigResponse{Id: req.GetId(), Signature: junk(65, m)}, true, nil
+					case "empty":
+						return &pb.BCastSigResponse{Id: req.GetId()}, true, nil
+					case "len64":
+						return &pb.BCastSigResponse{Id: req.GetId(), Signature: junk(64, m)}, true, nil
+					case "otherhash":
+						sig := r.own(sigKey{M: m, S: s, Q: q, ID: idCode(req.GetId()), P: [2]int{p[0], (p[1] + 1) % 1000}})
+						return &pb.BCastSigResponse{Id: req.GetId(), Signature: sig}, true, nil
+					case "late":
+						time.Sleep(20 * time.Millisecond)
 					}
 					sig := r.own(sigKey{M: m, S: s, Q: q, ID: idCode(req.GetId()), P: p})
+					if mode == "wrongid" {
+						return &pb.BCastSigResponse{Id: "verif/not-the-id", Signature: sig}, true, nil
+					}
 					return &pb.BCastSigResponse{Id: req.GetId(), Signature: sig}, true, nil
 				})
+			nomsg := false
+			for _, x := range sc.NoMsg {
+				nomsg = nomsg || x == m
+			}
+			if nomsg {
+				c.hosts[s][m].RemoveStreamHandler(protoMsg)
+				continue
+			}
 			p2p.RegisterHandler("verif", c.hosts[s][m], protoMsg,
 				func() proto.Message { return new(pb.BCastMessage) },
 				func(_ context.Context, pID peer.ID, pm proto.Message) (proto.Message, bool, error) {
@@ -686,6 +727,12 @@ func (r *runner) register(s, m, id int) {
 			r.note("check with a payload no script produces")
 		}
 		res := checkFor(id, q, a)
+		r.mu.Lock()
+		d := r.slow[m]
+		r.mu.Unlock()
+		if d > 0 && !r.sc.isFaulty(q) {
+			time.Sleep(time.Duration(d) * time.Millisecond) // before the event is recorded: the record marks the end of the check
+		}
 		r.add(&event{kind: "sigreq", s: s, r: m, q: q, id: id, p: p, ck: res})
 		if !res {
 			return errors.New("verif: check refuses")
@@ -994,6 +1041,12 @@ func (r *runner) doBcast(op Op) {
 		r.stats["bcast_err"]++
 	}
 	r.mu.Unlock()
+	if err != nil && op.Expect == "ok" {
+		r.note("honest broadcast that must succeed on correct code failed: member %d id %d: %v", op.M, op.ID, err)
+		r.mu.Lock()
+		r.stats["expected_ok_broadcast_failed"]++
+		r.mu.Unlock()
+	}
 	if err != nil {
 		// Requests of the failed broadcast may still be on their way: flush every connection with a round trip
 		// (an unregistered id: no hook, no state change).
@@ -1089,7 +1142,7 @@ func (r *runner) render() {
 
 func runScript(t *testing.T, c *cluster, sc *Script) {
 	t.Helper()
-	r := &runner{t: t, c: c, sc: sc, policy: map[int]string{}, know: map[sigKey][]byte{}, rev: map[string]sigKey{}, stats: map[string]int{}}
+	r := &runner{t: t, c: c, sc: sc, policy: map[int]string{}, slow: map[int]int{}, know: map[sigKey][]byte{}, rev: map[string]sigKey{}, stats: map[string]int{}}
 	sc.Labels, sc.Notes = nil, nil
 	r.setup()
 	for _, op := range sc.Ops {
@@ -1101,12 +1154,14 @@ func runScript(t *testing.T, c *cluster, sc *Script) {
 			bad = bad || op.From < 0 || op.From > c.n || !sc.isFaulty(op.From) || op.To < 0 || op.To >= c.n || op.To == op.From
 		case "policy":
 			bad = op.M < 0 || op.M > c.n || !sc.isFaulty(op.M)
+		case "slow":
+			bad = op.M < 0 || op.M >= c.n || sc.isFaulty(op.M) || op.K < 0 || op.K > 200
 		case "race":
 			bad = bad || op.From < 0 || op.From > c.n || !sc.isFaulty(op.From) || len(op.IDs) == 0 || op.K > 6
 		default:
 			bad = true
 		}
-		if op.Op != "policy" && (op.P[0] < 0 || op.P[0] > 2 || op.P[1] < 0 || op.P[1] >= 1128) {
+		if op.Op != "policy" && op.Op != "slow" && (op.P[0] < 0 || op.P[0] > 2 || op.P[1] < 0 || op.P[1] >= 1128) {
 			bad = true
 		}
 		if op.Op == "bcast" && (op.P[0] > 1 || op.P[1] >= 1000) {
@@ -1131,6 +1186,10 @@ func runScript(t *testing.T, c *cluster, sc *Script) {
 			r.doMsg(op)
 		case "race":
 			r.doRace(op)
+		case "slow":
+			r.mu.Lock()
+			r.slow[op.M] = op.K
+			r.mu.Unlock()
 		}
 	}
 	r.render()
@@ -1559,6 +1618,149 @@ func (g *gen) replayAfterAccept(kind string) *Script {
 	return &Script{Kind: kind, N: n, Faulty: fl, Ops: ops}
 }
 
+// slotList: a signature list over (s, f, id, p) in which slot i holds member who[i]'s signature (who[i] < 0: junk).
+func slotList(who []int, s, f, id int, p [2]int) []SigSpec {
+	var l []SigSpec
+	for _, m := range who {
+		if m < 0 {
+			l = append(l, SigSpec{Junk: 65})
+		} else {
+			l = append(l, SigSpec{M: m, S: s, Q: f, ID: id, P: p})
+		}
+	}
+	return l
+}
+
+// badResponder: the scripted member misbehaves as a RESPONDER while honest members broadcast (refuses the msg
+// protocol; answers signature requests with a wrong id, an empty / short / unrelated / junk signature, late, or not
+// at all), every honest Broadcast's return is recorded, and then the usual attacks run against the same long-lived
+// honest components: equivocation with crafted lists that carry the scripted member's signature in slots that are
+// not its own (single slots, leading slots, lists compacted to the front), relays; finally honest broadcasts again.
+func (g *gen) badResponder(kind string) *Script {
+	n := g.n
+	b := g.rng.Intn(n)
+	fl := []int{b}
+	hs := honestOf(n, fl)
+	sc := &Script{Kind: kind, N: n, Faulty: fl, Fresh: true}
+	nomsg := g.rng.Intn(5) < 3
+	if nomsg {
+		sc.NoMsg = []int{b}
+	}
+	var ids []int
+	for i := 0; i < 2*n+4; i++ {
+		ids = append(ids, 100+i)
+	}
+	ops := regAll(n, fl, []int{1}, append([]int{1, 2, 3}, ids...))
+	next := 0
+	fresh := func() int { next++; return ids[next-1] }
+	// phase 1: honest broadcasts while the scripted member misbehaves as a responder
+	modes := []string{"coop", "wrongid", "wrongid", "wrongid", "empty", "empty", "len64", "otherhash", "junk", "refuse", "late"}
+	mode := modes[g.rng.Intn(len(modes))]
+	if nomsg && g.rng.Intn(2) == 0 {
+		mode = "coop" // signs normally, refuses the message
+	}
+	perBcast := g.rng.Intn(3) == 0
+	slow := g.rng.Intn(2) == 0
+	order := append([]int(nil), hs...)
+	g.rng.Shuffle(len(order), func(i, j int) { order[i], order[j] = order[j], order[i] })
+	for _, m := range order {
+		if perBcast {
+			mode = modes[g.rng.Intn(len(modes))]
+		}
+		ops = append(ops, Op{Op: "policy", M: b, Mode: mode})
+		if slow {
+			for _, x := range hs {
+				if x != m {
+					ops = append(ops, Op{Op: "slow", M: x, K: 25})
+				}
+			}
+		}
+		ops = append(ops, Op{Op: "bcast", S: 1, M: m, ID: 1, P: [2]int{0, 30 + m}})
+		for _, x := range hs {
+			ops = append(ops, Op{Op: "slow", M: x, K: 0})
+		}
+	}
+	ops = append(ops, Op{Op: "policy", M: b, Mode: "coop"})
+	// phase 2: attacks by the scripted member as a sender. Per target id a victim j signs Y, everybody else X.
+	X, Y := [2]int{0, 40}, [2]int{0, 41}
+	for _, j := range hs {
+		id := fresh()
+		for _, m := range hs {
+			p := X
+			if m == j {
+				p = Y
+			}
+			ops = append(ops, Op{Op: "sigreq", S: 1, From: b, To: m, ID: id, P: p})
+		}
+		for _, r := range hs {
+			for _, p := range [][2]int{X, Y} {
+				var lists [][]int
+				ident := make([]int, n)
+				for i := range ident {
+					ident[i] = i
+				}
+				one := append([]int(nil), ident...)
+				one[j] = b // the victim's slot carries the scripted member's signature
+				own := append([]int(nil), ident...)
+				own[r] = b // the receiver's own slot
+				lead1 := append([]int(nil), ident...)
+				lead1[0] = b // leading slots overwritten
+				lead2 := append([]int(nil), lead1...)
+				lead2[1%n] = b
+				var comp []int // everybody but the receiver, compacted to the front, padded with the scripted member
+				for i := 0; i < n; i++ {
+					if i != r && i != b {
+						comp = append(comp, i)
+					}
+				}
+				for len(comp) < n {
+					comp = append(comp, b)
+				}
+				var comp2 []int // everybody but the receiver (scripted member in its place in the order), padded
+				for i := 0; i < n; i++ {
+					if i != r {
+						comp2 = append(comp2, i)
+					}
+				}
+				for len(comp2) < n {
+					comp2 = append(comp2, b)
+				}
+				all := make([]int, n)
+				for i := range all {
+					all[i] = b
+				}
+				rnd := make([]int, n)
+				for i := range rnd {
+					rnd[i] = []int{i, i, b, g.rng.Intn(n)}[g.rng.Intn(4)]
+				}
+				lists = append(lists, one, own, lead1, lead2, comp, comp2, all, rnd, ident)
+				for _, who := range lists {
+					ops = append(ops, Op{Op: "msg", S: 1, From: b, To: r, ID: id, P: p, Sigs: slotList(who, 1, b, id, p)})
+				}
+			}
+		}
+	}
+	// relays of what honest members got signed for id 1 in phase 1 (the scripted member has what it was sent or asked)
+	for _, m := range hs {
+		for _, r := range hs {
+			if r != m {
+				ops = append(ops, Op{Op: "msg", S: 1, From: b, To: r, ID: 1, P: [2]int{0, 30 + m}, Sigs: fullSet(n, 1, m, 1, [2]int{0, 30 + m})})
+			}
+		}
+	}
+	// phase 3: honest broadcasts afterwards; with a cooperating scripted member that speaks the msg protocol they
+	// must succeed and be delivered
+	for _, m := range order {
+		exp := "ok"
+		if nomsg {
+			exp = ""
+		}
+		ops = append(ops, Op{Op: "bcast", S: 1, M: m, ID: fresh(), P: [2]int{0, 50 + m}, Expect: exp})
+	}
+	sc.Ops = ops
+	return sc
+}
+
 // raceScript: concurrent conflicting signature requests over many registered ids (a probabilistic detector for
 // non-atomic check-and-store in the dedup of handleSigRequest).
 func raceScript(n int, g *gen, nids int) *Script {
@@ -1609,16 +1811,28 @@ func TestGen(t *testing.T) {
 		scs := corpus(n)
 		scs = append(scs, raceScript(n, g, hx.IntEnv("VERIF_RACE_IDS", 150)))
 		scs = append(scs, g.replayAfterAccept("replay-after-accept"), g.replayAfterAccept("replay-after-accept"))
+		scs = append(scs, g.badResponder("bad-responder"), g.badResponder("bad-responder"))
 		for len(scs) < total/len(sizes) {
 			if len(scs)%8 == 0 {
 				scs = append(scs, g.replayAfterAccept("replay-after-accept"))
+				continue
+			}
+			if len(scs)%8 == 4 {
+				scs = append(scs, g.badResponder("bad-responder"))
 				continue
 			}
 			scs = append(scs, g.random("random"))
 		}
 		for _, sc := range scs {
 			sc.ID = len(all)
-			runScript(t, c, sc)
+			if sc.Fresh {
+				fc := newCluster(t, n, rng, logs)
+				fc.scheme = c.scheme
+				runScript(t, fc, sc)
+				fc.close()
+			} else {
+				runScript(t, c, sc)
+			}
 			all = append(all, sc)
 		}
 	}
